@@ -746,7 +746,7 @@ var recRouter = ev.New("C09", "router-model",
 		"Non-trivial: >=2 routes, deciding route not the first, and an inverted or OR-group criterion in a reached route; distinct key = config shape + request class + decider").
 	Require("nonfirst-route", "decided-default", "reject", "error-required", "src-mapped", "port0-vs-bitmap", "port0-vs-ranges",
 		"repr-single", "repr-ranges", "repr-bitmap", "todomains-over-16", "gob-set", "text-set", "resolved", "inverted", "or-group",
-		"target-ip", "target-domain", "unknown-user", "default-implicit", "default-reject", "errlookup-skipped", "route-resolver", "expected-prefixes")
+		"target-ip", "target-domain", "unknown-user", "default-implicit", "default-reject", "errlookup-skipped", "route-resolver", "expected-prefixes", "cheap-false-resolver-fails")
 
 var dirSeq atomic.Int64
 
@@ -821,6 +821,9 @@ func runCase(rt fataler, g *genCase, qs []request, rec *ev.Recorder, ntRule func
 			anyOr = anyOr || inf.orGroup
 			resolved = resolved || inf.resolved
 			skipped = skipped || inf.skipped
+			if inf.cheapFalseResolverFails {
+				add("cheap-false-resolver-fails")
+			}
 		}
 
 		if got.panicV != nil {
